@@ -28,6 +28,9 @@ structure NodeData where
   kids : List (String × Nat)
   /-- structural-equality class (number of the first equal object), as observed by the serialiser -/
   cls : Nat := 0
+  /-- fingerprint class of all non-child, non-tag data of the node (expression, axis, dtype,
+      name, …): two nodes with equal `kind`, `attrs`, `tags` and children are structurally equal -/
+  attrs : Nat := 0
 deriving Repr, DecidableEq, Inhabited
 
 abbrev Heap := Array NodeData
@@ -164,7 +167,7 @@ def TState.image (s : TState) (i : Nat) : Option Nat :=
 
 /-- structural equality of two nodes whose children are already canonical ids -/
 def sameNode (a b : NodeData) : Bool :=
-  a.kind == b.kind && a.tags == b.tags && a.kids == b.kids
+  a.kind == b.kind && a.attrs == b.attrs && a.tags == b.tags && a.kids == b.kids
 
 /-- a node's children with every followed edge redirected to the child's result -/
 def mapKids (sel : String → String → Bool) (s : TState) (nd : NodeData) : List (String × Nat) :=
@@ -179,7 +182,8 @@ def mapKids (sel : String → String → Bool) (s : TState) (nd : NodeData) : Li
 def candidate (sel : String → String → Bool) (relabel : NodeData → String × List String)
     (s : TState) (i : Nat) : NodeData :=
   { kind := (relabel (s.heap.node i)).1, tags := (relabel (s.heap.node i)).2,
-    kids := mapKids sel s (s.heap.node i), cls := (s.heap.node i).cls }
+    kids := mapKids sel s (s.heap.node i), cls := (s.heap.node i).cls,
+    attrs := (s.heap.node i).attrs }
 
 def tstep (sel : String → String → Bool) (relabel : NodeData → String × List String)
     (s : TState) (i : Nat) : TState :=
